@@ -5,7 +5,18 @@ import os
 HERE = os.path.dirname(os.path.dirname(os.path.abspath(__file__)))
 
 CLAIMED = {
-    "C02": dict(
+    "C08": dict(
+        level="exploration", design="DESIGN.md 3/C08",
+        text=("Seeded histories over several instances of a generated class and its spec / plain subclass (every default style: "
+              "none, literal, mutable literal, Attr(default=), Attr(default_factory=), dataclasses.field, re-default / re-declare in "
+              "a subclass), constructed with and without retained arguments; around every operation (in-place API writes at any "
+              "depth, direct container mutation, copy-on-write helpers) the identity snapshot of class-level defaults, retained "
+              "constructor arguments and all other instances must not move; after reset_<a> / reset / del the attribute equals a "
+              "freshly constructed instance's, is not (and shares nothing with) the class-level object, and is absent without default."),
+        note=("Trusted: snapshot walker; fresh-instance comparison uses the library's own constructor as the reference for defaults "
+              "(metamorphic). Restricted to init-enabled, non-do_not_copy attributes as the property says."),
+        technique="deterministic simulation: seeded multi-instance operation histories, identity-snapshot oracle + metamorphic reset-vs-fresh-instance relation",
+    ),    "C02": dict(
         level="exploration", design="DESIGN.md 3/C02",
         text=("After every copy-on-write helper / deepcopy of a seeded history over generated spec classes: (static) the "
               "identity-graph intersection of receiver and result, minus the graph of the freshly built arguments and the values "
